@@ -347,6 +347,37 @@ def _counter_budget(an: Analysis, ob1, f: FunctionInfo, g: CFG, d: Deps, loop: a
             names = {x.id for x in ast.walk(n.ast) if isinstance(x, ast.Name)}
             if LIMIT in names and len(n.ast.ops) == 1:
                 guards.append(n)
+    if True:
+        # the decision handed to the methods of a private helper object (`policy.allows_retry(...)`): not read as part of this
+        # function (DESIGN section 6, helper objects) - no verdict instead of a guess
+        helper_calls = []
+        for h_ in tr.handlers:
+            for c_ in [x for b_ in h_.body for x in ast.walk(b_) if isinstance(x, ast.Call) and isinstance(x.func, ast.Attribute)]:
+                t_ = an.prog.functions.get(an.callee(f, c_) or "")
+                if t_ is not None and t_.cls is not None and t_.cls.module is f.module and t_.cls.name.startswith("_"):
+                    helper_calls.append(t_.short)
+        shared_mutable = []
+        for h_ in tr.handlers:
+            for c_ in [x for b_ in h_.body for x in ast.walk(b_) if isinstance(x, ast.Call) and isinstance(x.func, ast.Attribute)]:
+                t_ = an.prog.functions.get(an.callee(f, c_) or "")
+                if t_ is None or t_.cls is None or t_.cls.module is not f.module or not t_.cls.name.startswith("_"):
+                    continue
+                recv_ = c_.func.value
+                outside = isinstance(recv_, ast.Name) and recv_.id not in an.prog.local_names(f)
+                mutable = any(
+                    isinstance(x, (ast.Assign, ast.AugAssign, ast.AnnAssign)) and any(isinstance(tg, ast.Attribute) and isinstance(tg.value, ast.Name) and tg.value.id == "self" for tg in (x.targets if isinstance(x, ast.Assign) else [x.target]))
+                    for m_ in t_.cls.node.body
+                    if isinstance(m_, (ast.FunctionDef, ast.AsyncFunctionDef)) and m_.name != "__init__"
+                    for x in ast.walk(m_)
+                )
+                if outside and mutable:
+                    shared_mutable.append((c_, t_))
+        if shared_mutable:
+            c_, t_ = shared_mutable[0]
+            ob1.fail(f, c_, f"the attempt bookkeeping is kept in a `{t_.cls.name}` object that is created outside the call (once per decorated function) and modified by its methods: overlapping calls of the wrapped function share - and reset - one counter, so the budget of `limit` retries is no longer per call")
+            return None
+        if helper_calls and not guards:
+            raise AnalysisError(f"C14.1: the retry decision of {f.short} is delegated to methods of a private helper object ({sorted(set(helper_calls))}); mechanism moved into a helper class is not modelled (unrecognised idiom)")
     if len(guards) != 1:
         ob1.fail(f, tr, f"expected exactly one retry guard comparing the attempt counter with `limit`, found {len(guards)}")
         return None
